@@ -215,7 +215,8 @@ def lifecycle(chk: Check, tier: str, with_model: bool) -> tuple[dict, list[dict]
             if sorted(r.violated) != sorted(want) or r.errors and not want:
                 chk.model_drift(f"TLC: {cfg}: violated {r.violated or r.errors[:1]}, expected {want}")
         cov["model_check"] = inst
-    scs = qos_gen.lifecycle_scenarios(tier == "thorough") + qos_gen.gateway_api_scenarios(tier == "thorough")
+    scs = qos_gen.lifecycle_scenarios(tier == "thorough") + qos_gen.gateway_api_scenarios(tier == "thorough") \
+        + qos_gen.other_dongle_scenarios(tier == "thorough")
     # ... and operation sequences taken from the model itself (TLC -simulate on the repaired instance)
     import shutil
     import tempfile
